@@ -282,6 +282,8 @@ def run(ctx):
     c03.rule_unpack(ctx)
     rule_level_flow(ctx)
     rule_fresh_waiter(ctx)
+    from .common import rule_isolation_mapping
+    rule_isolation_mapping(ctx, "level-flow")
     from .common import rule_instance_state
     rule_instance_state(ctx, ("aiokafka.consumer.",))
     rep.nd("exactness of the delivered set for all interleavings of producers / cuts of the log (needs concrete logs)")
